@@ -53,6 +53,18 @@ class Unsupported(Exception):
     pass
 
 
+ACCESSORS = {
+    "LRUTrieNode": ["is_page", "flag_as_page", "is_crawled", "flag_as_crawled", "has_webentity_creation_rule",
+                    "flag_as_webentity_creation_rule", "unflag_as_webentity_creation_rule", "has_tail",
+                    "flag_as_having_tail", "is_tail", "can_have_child_webentities", "flag_can_have_child_webentities",
+                    "has_left", "left", "set_left", "has_right", "right", "set_right", "has_child", "child", "set_child",
+                    "has_parent", "parent", "set_parent", "has_outlinks", "outlinks", "set_outlinks",
+                    "has_inlinks", "inlinks", "set_inlinks", "has_webentity", "webentity", "set_webentity",
+                    "unset_webentity"],
+    "LinkStoreNode": ["has_previous", "previous", "set_previous", "target", "set_target"],
+}
+
+
 def module_level_assignments(path):
     tree = ast.parse(open(path).read(), path)
     counts = {}
@@ -160,6 +172,42 @@ def main(out):
     A("Definition base4_ops : list (N * N) := [%s]." % "; ".join(
         "(%d, %d)" % (ord(k), ord(v)) for k, v in sorted(ops.items())))
     A("Definition version_bytes : list N := %s." % coq_bytes(vals["__version__"]))
+    # ---- accessors of LRUTrieNode / LinkStoreNode: which helper and which constants each one uses ----
+    A("")
+    A("(* accessor name -> [helper code; negated?; constants it names, in source order]")
+    A("   helper codes: 1 test, 2 flag, 3 unflag, 4 compare-with-0 / plain register access *)")
+    for rel, cls, prefix in (("traph/lru_trie/node.py", "LRUTrieNode", "LRU_TRIE_NODE_"),
+                             ("traph/link_store/node.py", "LinkStoreNode", "LINK_STORE_NODE_")):
+        tree = ast.parse(open(os.path.join(REPO, rel)).read())
+        mod = importlib.import_module(rel[:-3].replace("/", "."))
+        klass = [n for n in tree.body if isinstance(n, ast.ClassDef) and n.name == cls]
+        if len(klass) != 1:
+            raise Unsupported("class %s not found once in %s" % (cls, rel))
+        for item in klass[0].body:
+            if not isinstance(item, ast.FunctionDef) or item.name not in ACCESSORS[cls]:
+                continue
+            helper, neg, consts = 4, 0, []
+            for n in ast.walk(item):
+                if isinstance(n, ast.Call) and isinstance(n.func, ast.Name) and n.func.id in ("test", "flag", "unflag"):
+                    helper = {"test": 1, "flag": 2, "unflag": 3}[n.func.id]
+                if isinstance(n, ast.UnaryOp) and isinstance(n.op, ast.Not):
+                    neg = 1
+                if isinstance(n, ast.Name) and n.id.startswith(prefix) and n.id.isupper():
+                    consts.append(n.id)
+                if isinstance(n, ast.Name) and n.id == "DEFAULT_FLAGS_VALUE":
+                    raise Unsupported("%s.%s compares with DEFAULT_FLAGS_VALUE: not a bit accessor" % (cls, item.name))
+            seen = []
+            for c in consts:
+                if c not in seen:
+                    seen.append(c)
+            if not seen:
+                raise Unsupported("%s.%s names no layout constant" % (cls, item.name))
+            A("Definition acc_%s_%s : list N := [%s]." % ("n" if cls == "LRUTrieNode" else "s", item.name,
+                                                      "; ".join([str(helper), str(neg)] + [str(getattr(mod, c)) for c in seen])))
+        found = set(i.name for i in klass[0].body if isinstance(i, ast.FunctionDef))
+        missing = [m for m in ACCESSORS[cls] if m not in found]
+        if missing:
+            raise Unsupported("%s lacks accessor(s) %s" % (cls, missing))
     text = "\n".join(L) + "\n"
     old = open(out).read() if os.path.exists(out) else None
     if old != text:  # keep the timestamp when nothing changed (incremental make)
